@@ -273,6 +273,13 @@ func (c *Config) SetChild(name string, idx int, value *Config, opts ...Option) e
 	if value.contains(at, map[*Config]bool{}) {
 		return raiseCyclicErr(name)
 	}
+	// ... nor one of the configs the parent links lead to from there (the
+	// link of a config that was removed from its parent still names it)
+	for p := at; p != nil; p = p.Parent() {
+		if p == value {
+			return raiseCyclicErr(name)
+		}
+	}
 	return c.setField(name, idx, cfgSub{c: value}, opts)
 }
 
